@@ -63,11 +63,11 @@ def run_case(cls, key, seed, ctx):
     mapping, problems = ML.align_index(moment, kind, ds, ratio, rng)
     ctx.ev("index_alignments")
     for mech, det in problems[:3]:
-        ctx.violate(mech, detail=det, index=[repr(e) for e in list(moment.index)[:24]], **wit)
+        ctx.violate(mech, detail=det, index=[repr(e) for e in list(moment.index)[:24]], wit=wit)
     if problems:
         return
     ctx.check(len(list(moment.index)) == len(ref_entries), "index_size_differs_from_twice_the_occurring_event_group_pairs",
-              got=len(list(moment.index)), expected=len(ref_entries), **wit)
+              got=len(list(moment.index)), expected=len(ref_entries), wit=wit)
     # gamma on hard and soft predictors in different containers
     for j in range(3):
         style = ["hard", "soft", "extreme"][j]
@@ -78,12 +78,12 @@ def run_case(cls, key, seed, ctx):
         for ent, k in mapping.items():
             ctx.ev("gamma_entries_compared")
             ctx.check(close(got[ent], ref[k], 1e-10, 1e-12), "gamma_entry_differs_from_definition", entry=repr(ent), defined_as=repr(k),
-                      got=float(got[ent]), expected=ref[k], prediction=h.tolist(), **wit)
+                      got=float(got[ent]), expected=ref[k], prediction=h.tolist(), wit=wit)
     b = moment.bound()
     for ent in mapping:
         ctx.ev("bound_entries_compared")
-        ctx.check(close(b[ent], eps, 0, 1e-15), "bound_is_not_the_configured_slack", entry=repr(ent), got=float(b[ent]), expected=eps, **wit)
-    ctx.check(len(b) == len(list(moment.index)), "bound_index_differs_from_moment_index", **wit)
+        ctx.check(close(b[ent], eps, 0, 1e-15), "bound_is_not_the_configured_slack", entry=repr(ent), got=float(b[ent]), expected=eps, wit=wit)
+    ctx.check(len(b) == len(list(moment.index)), "bound_index_differs_from_moment_index", wit=wit)
     # r = 1: '+' entries = MetricFrame by_group - overall of the matching rate (hard predictions)
     if ratio == 1.0:
         from fairlearn.metrics import MetricFrame, false_positive_rate, selection_rate, true_positive_rate
@@ -107,7 +107,7 @@ def run_case(cls, key, seed, ctx):
                 val = mf.by_group.loc[(st, a), evname] - mf.overall.loc[st, evname]
             ctx.ev("metricframe_entries_compared")
             ctx.check(close(got[ent], val, 1e-10, 1e-12), "plus_entry_differs_from_metricframe_by_group_minus_overall", entry=repr(ent),
-                      got=float(got[ent]), metricframe=float(val), prediction=h.tolist(), **wit)
+                      got=float(got[ent]), metricframe=float(val), prediction=h.tolist(), wit=wit)
 
 
 def run_loss(ctx, rng):
@@ -129,7 +129,7 @@ def run_loss(ctx, rng):
             ctx.ev("loss_gamma_compared")
             ctx.check(len(got) == 1 and close(got.iloc[0], RM.error_rate(ds.y, h, fp, fn), 1e-10, 1e-12),
                       "error_rate_gamma_differs_from_cost_weighted_error", costs=costs, got=repr(got), expected=RM.error_rate(ds.y, h, fp, fn),
-                      prediction=h.tolist(), **wit)
+                      prediction=h.tolist(), wit=wit)
         return
     lo, hi = gen.pick(rng, [(0.0, 1.0), (-1.0, 2.0), (0.2, 0.6), (0.0, 5.0)])
     if which == "bgl_zero_one":
@@ -150,11 +150,11 @@ def run_loss(ctx, rng):
         h = np.round(rng.uniform(lo - 0.7, hi + 0.7, size=ds.n), 3)
         got = m.gamma(ML.FixedPredictor(h))
         ref = RM.group_loss(lname, yv, ds.g, h, lo, hi)
-        ctx.check(set(map(repr, got.index)) == set(map(repr, ref.keys())), "group_loss_index_is_not_the_set_of_groups", got=list(map(repr, got.index)), **wit)
+        ctx.check(set(map(repr, got.index)) == set(map(repr, ref.keys())), "group_loss_index_is_not_the_set_of_groups", got=list(map(repr, got.index)), wit=wit)
         for a, v in ref.items():
             ctx.ev("loss_gamma_compared")
             ctx.check(a in got.index and close(got[a], v, 1e-10, 1e-12), "group_loss_gamma_differs_from_mean_clipped_loss", group=repr(a),
-                      got=repr(got.get(a)), expected=v, prediction=h.tolist(), y_values=yv, clip=[lo, hi], **wit)
+                      got=repr(got.get(a)), expected=v, prediction=h.tolist(), y_values=yv, clip=[lo, hi], wit=wit)
     b = m.bound()
     ctx.ev("bound_entries_compared")
     ctx.check(all(close(v, ub, 0, 1e-15) for v in b) and len(b) == len(ref), "bound_is_not_the_configured_slack", got=repr(b), expected=ub)
